@@ -78,6 +78,47 @@ func main() {
 		dumpModel(prog, *dump)
 		return
 	}
+	if *prop == "ALL" {
+		// survey mode: every property's rules on one loaded program, verdict keys only
+		findings, _ := loadFindings(filepath.Join(*verif, "known_findings.json"))
+		var ids []string
+		for id := range props {
+			if len(id) == 3 && id[0] == 'C' {
+				ids = append(ids, id)
+			}
+		}
+		sort.Strings(ids)
+		shared := map[string]any{}
+		for _, id := range ids {
+			pd := props[id]
+			c := &Ctx{P: prog, Prop: id, Tier: *tier, Seed: seed, Analysed: map[string]int{}, start: start, shared: shared}
+			for _, r := range pd.Rules {
+				func() {
+					defer func() {
+						if rec := recover(); rec != nil {
+							c.rule = r.Name
+							c.und("analyzer-panic/"+r.Name, 0, fmt.Sprintf("analyzer panic: %v", rec))
+						}
+					}()
+					c.rule = r.Name
+					r.Fn(c)
+				}()
+			}
+			known := map[string]bool{}
+			for _, f := range findings {
+				if f.Status == "known" && f.Property == id {
+					known[f.Key] = true
+				}
+			}
+			c.finishFloorsOnly()
+			for _, o := range c.Obls {
+				if (o.Verdict == Violation || o.Verdict == Undecided) && !(known[o.Key] && o.Verdict == Violation) {
+					fmt.Printf("REPORT %s %s %s %s\n", id, o.Verdict, o.Key, o.Pos)
+				}
+			}
+		}
+		return
+	}
 	pd, ok := props[*prop]
 	if !ok {
 		fmt.Fprintf(os.Stderr, "unknown property %q\n", *prop)
